@@ -42,6 +42,9 @@ type Engine struct {
 	specInProgress map[string]bool
 	paramCalls map[*ssa.Function]map[int]bool // function-typed parameters that are called
 	ifaceImplCache map[*ssa.Function]bool
+	deferReach map[*ssa.Function]bool
+	curProp string
+	relCache map[string]map[*ssa.Function]bool
 }
 
 const (
@@ -98,6 +101,7 @@ func loadEngine(repoGo, specDir string) (*Engine, error) {
 	}
 	e.u.heap(allocHeap, arraySort(SRef, SBool))
 	e.u.heap(panickingHeap, SBool)
+	e.u.heap(escHeap, arraySort(SRef, SBool))
 	e.u.heap(panicvalHeap, SRef)
 	e.cs = loadContracts(repoGo, specDir)
 	e.cerrors = append(e.cerrors, e.cs.Errors...)
@@ -380,6 +384,22 @@ func (e *Engine) knownPure(name string) bool {
 		}
 	}
 	return purePkgs[pkg]
+}
+
+func (e *Engine) pureResultSortN(name string, k int) (Sort, bool) {
+	i := strings.LastIndex(name, ".")
+	if i < 0 {
+		return "", false
+	}
+	pkgPath, fn := name[:i], name[i+1:]
+	for _, p := range e.prog.AllPackages() {
+		if p.Pkg.Path() == pkgPath {
+			if f := p.Func(fn); f != nil && f.Signature.Results().Len() > k {
+				return e.u.sortOf(f.Signature.Results().At(k).Type()), true
+			}
+		}
+	}
+	return "", false
 }
 
 func (e *Engine) pureResultSort(name string) (Sort, bool) {
@@ -847,9 +867,28 @@ func (e *Engine) computeEffects() {
 		for _, b := range f.Blocks {
 			for _, ins := range b.Instrs {
 				if mc, ok := ins.(*ssa.MakeClosure); ok {
-					e.addrTaken[mc.Fn.(*ssa.Function)] = true
+					// a closure that is only called directly (func(){...}() or a local
+					// variable that is only called) does not escape
+					escapes := false
+					for _, ref := range *mc.Referrers() {
+						switch r := ref.(type) {
+						case *ssa.DebugRef:
+						case ssa.CallInstruction:
+							if r.Common().Value != ssa.Value(mc) {
+								escapes = true
+							}
+						default:
+							escapes = true
+						}
+					}
+					if escapes {
+						e.addrTaken[mc.Fn.(*ssa.Function)] = true
+					}
 				}
 				if _, ok := ins.(*ssa.DebugRef); ok {
+					continue
+				}
+				if _, ok := ins.(*ssa.MakeClosure); ok {
 					continue
 				}
 				for _, op := range ins.Operands(nil) {
@@ -1218,4 +1257,125 @@ func (e *Engine) declareAxioms() {
 		}
 		e.u.axiom(t)
 	}
+}
+
+func (e *Engine) sourceBefore(pos token.Pos, n int) string {
+	if !pos.IsValid() {
+		return ""
+	}
+	p := e.fset.Position(pos)
+	l := e.lines(p.Filename)
+	var out []string
+	for i := p.Line - 1 - n; i < p.Line-1 && i < len(l); i++ {
+		if i >= 0 {
+			out = append(out, strings.TrimSpace(l[i]))
+		}
+	}
+	return strings.Join(out, " ")
+}
+
+// deferReachable: can fn be executed (transitively) from a deferred call?
+func (e *Engine) deferReachable(fn *ssa.Function) bool {
+	if e.deferReach == nil {
+		e.deferReach = map[*ssa.Function]bool{}
+		var work []*ssa.Function
+		var cur *ssa.Function
+		add := func(f *ssa.Function) {
+			if f != nil && !e.deferReach[f] && e.inRepo(f) {
+				e.deferReach[f] = true
+				work = append(work, f)
+				if os.Getenv("GOVC_DEBUG_DEFER") != "" {
+					from := "<defer>"
+					if cur != nil {
+						from = cur.String()
+					}
+					fmt.Fprintf(os.Stderr, "defer-reach %s <- %s\n", f, from)
+				}
+			}
+		}
+		targets := func(c *ssa.CallCommon) []*ssa.Function {
+			if c.IsInvoke() {
+				return e.implementations(c)
+			}
+			if g := c.StaticCallee(); g != nil {
+				return []*ssa.Function{g}
+			}
+			if _, isB := c.Value.(*ssa.Builtin); isB {
+				return nil
+			}
+			return e.addrTakenWithSig(c.Signature())
+		}
+		for _, f := range e.allFuncs {
+			for _, b := range f.Blocks {
+				for _, ins := range b.Instrs {
+					if d, ok := ins.(*ssa.Defer); ok {
+						for _, g := range targets(&d.Call) {
+							add(g)
+						}
+					}
+				}
+			}
+		}
+		for len(work) > 0 {
+			f := work[len(work)-1]
+			work = work[:len(work)-1]
+			cur = f
+			for _, b := range f.Blocks {
+				for _, ins := range b.Instrs {
+					switch x := ins.(type) {
+					case ssa.CallInstruction:
+						for _, g := range targets(x.Common()) {
+							add(g)
+						}
+					case *ssa.MakeClosure:
+						add(x.Fn.(*ssa.Function))
+					}
+				}
+			}
+		}
+	}
+	return e.deferReach[fn]
+}
+
+// worthInlining: for the property being checked, is it useful to see the body
+// of this uncontracted callee?  Small helpers, callees that (transitively) call
+// functions with preconditions tagged with the property, and callees that touch
+// ghost state are inlined; everything else is summarised by its write set.
+func (e *Engine) worthInlining(f *ssa.Function) bool {
+	n := 0
+	for _, b := range f.Blocks {
+		for _, ins := range b.Instrs {
+			if _, ok := ins.(*ssa.DebugRef); !ok {
+				n++
+			}
+		}
+	}
+	if n <= 40 {
+		return true
+	}
+	if e.curProp == "" {
+		return true
+	}
+	// higher-order helpers (calling a function-typed parameter) are only
+	// meaningful together with the closure passed in
+	if len(e.paramCalls[f]) > 0 {
+		return true
+	}
+	if e.relCache == nil {
+		e.relCache = map[string]map[*ssa.Function]bool{}
+	}
+	rel, ok := e.relCache[e.curProp]
+	if !ok {
+		rel = e.relevantFuncs(e.curProp)
+		e.relCache[e.curProp] = rel
+	}
+	if rel[f] {
+		return true
+	}
+	for h := range e.modsets[f] {
+		if strings.HasPrefix(h, "G$ghost$") {
+			return true
+		}
+	}
+	return false
 }
